@@ -277,6 +277,10 @@ def run_comp(pid, unit, tier, seed, keep=False):
     w = engine.scratch_root()
     try:
         res = complemmas.check_all(w, rlimit=unit.get("rlimit", 600), only=unit.get("only"))
+        n_ref, bad_refs = complemmas.check_axiom_refs(engine.CONTRACTS)
+        for b in bad_refs:
+            out["undecided"].append({"what": "in-crate axiom without its certificate: %s" % b})
+        out["axiom_references_checked"] = n_ref
         smt = 0.0
         for r in res:
             n = (r.get("lemmas") or 1) + 1
